@@ -1117,6 +1117,11 @@ impl UnifiedCommandExecutor {
                 let count_val = count.unwrap_or(1);
                 let mut popped = Vec::new();
                 
+                // (a count of 0 pops nothing, but a key of another type is refused all the same)
+                if count_val == 0 {
+                    self.storage.zrange(db, &key, 0, 0, false)?;
+                }
+                
                 for _ in 0..count_val {
                     // Get the member with lowest score (rank 0)
                     let members = self.storage.zrange(db, &key, 0, 0, false)?;
@@ -1141,6 +1146,11 @@ impl UnifiedCommandExecutor {
             SortedSetCommand::ZPopMax { key, count } => {
                 let count_val = count.unwrap_or(1);
                 let mut popped = Vec::new();
+                
+                // (a count of 0 pops nothing, but a key of another type is refused all the same)
+                if count_val == 0 {
+                    self.storage.zrange(db, &key, 0, 0, false)?;
+                }
                 
                 for _ in 0..count_val {
                     // Get the member with highest score (rank -1)
